@@ -277,4 +277,4 @@ _add("C17", "text", "The production path is also run on a blank device (--config
 _add("C19", "text", "Generator class names may collide (results are keyed by path and decided by priority).")
 _add("C20", "text", "Jobs with --filter-acl <dir> (one ACL file per device, the worker's shared stdin dict).")
 _add("C07", "note", "Known gap: a `~` glued to the preceding text of a word (`name:~`) is outside the token language.")
-_add("C15", "note", "Known gap: topologies in which one device has two neighbours with the same short name (match_short_name) are not built.")
+_add("C15", "text", "Topology a1 -- b2.dc1, a1 -- b2.dc2 under match_short_name: two neighbours sharing a short name are two sessions.")
